@@ -7,6 +7,7 @@ CONSTANTS
   WCounts = {2}
   SOffs = {0}
   VBufs <- MC_None
+  Extra <- MC_AllExtra
   Naive = FALSE
   Gen = TRUE
 VIEW genview
